@@ -12,10 +12,27 @@ ENGINES = [
 NOTES = "Model-based verification with an explicit TLA+ specification; see DESIGN.md. Exit codes: 0 held / 1 VIOLATION / 2 tool error."
 BASE_NOTE = ("Trusted: TLC; the TLA+ transcription of RFC 9535 (anchored by the RFC example tables as ASSUMEs); the harness' address-based node identity; "
              "bounded universes (spec/Universes.tla) - beyond them only seeded random traces validated against the same spec.")
+T_EVAL = "TLC model checking of Evaluator.tla (evaluation machine over a bounded universe) + bounded-exhaustive replay of every TLC behaviour into the implementation"
 CLAIMED = {
  "C01": {"text": "TLC checks the evaluation machine (invariants NodesAreLocations, SmallStepIsDenotation, PrefixDenotation, ChildDepth) over a bounded universe of documents x queries and every finished behaviour is replayed into the real code: the multiset of result addresses must equal the specification's nodelist and every result must be a node of the caller's document.",
-         "note": BASE_NOTE, "technique": "TLC model checking of Evaluator.tla + bounded-exhaustive replay of TLC behaviours into the implementation"},
- "C02": {"text": "Same behaviours as C01 but the result SEQUENCE must equal the specification's (action properties InputMajorOrder, invariant PreOrder on the spec side). The implementation's selector-major deviation D1 is modelled as a named operator (DenoteSM) and is the only tolerated disagreement.",
-         "note": BASE_NOTE, "technique": "TLC model checking of Evaluator.tla + replay; known finding D1 classified by the spec's DenoteSM"},
+         "note": BASE_NOTE, "technique": T_EVAL},
+ "C02": {"text": "Same behaviours as C01 but the result SEQUENCE must equal the specification's (action property InputMajorOrder, invariant PreOrder on the spec side). The implementation's selector-major deviation D1 is modelled as a named operator (DenoteSM) and is the only tolerated disagreement.",
+         "note": BASE_NOTE, "technique": T_EVAL + "; known finding D1 classified by the spec's DenoteSM"},
+ "C03": {"text": "Spec operator NormalizedPath (RFC 9535 2.7) with TLC-checked invariant PathRoundTrip (injective, re-query returns the node); every behaviour over documents with hostile member names is replayed: each reported path must equal the spec's Normalized Path of the node found by ADDRESS, equal paths <=> same node, and re-running the path must return exactly that node.",
+         "note": BASE_NOTE + " Known finding D11 (unescaped names in paths, pinned by unit tests) is classified narrowly: actual path == raw embedding of a name that needs escaping.", "technique": T_EVAL},
+ "C04": {"text": "The comparison table of RFC 9535 2.3.5.2.2 transcribed as Compare/JEq/NumLt/StrLt; all pairs of operand values (every JSON type, int/float spellings, NOTHING) x 6 operators x operand forms (literal, @-query, $-query, value(), length(), count()) are embedded as $[?lhs op rhs] and replayed; the child must be selected iff Compare is true.",
+         "note": BASE_NOTE + " Numbers: decimal m*10^e with |m| small; mathematical comparison coincides with f64 comparison on this universe.", "technique": T_EVAL},
+ "C05": {"text": "EvalLx (and/or/not/paren, existence tests, nested filters, @/$ scoping) evaluated by TLC over logical expressions of depth <= 3 on children that cover absence and every falsy value; replayed; selected children compared in order.",
+         "note": BASE_NOTE, "technique": T_EVAL},
+ "C10": {"text": "Regex.tla (I-Regexp core: matching by split semantics, parser for pattern text) and the function operators of JPSemantics; ~600 patterns x subject strings for match/search, every JSON type and NOTHING for length/count/value; replayed.",
+         "note": BASE_NOTE + " Patterns with ^/$ excluded (ambiguous between RFC 9485 and the implementation's dialect).", "technique": T_EVAL},
+ "C11": {"text": "SliceLoop.tla models the implementation's slice loop; TLC proves (bounded) that it emits exactly the declarative RFC sequence, stays in range, iterates at most len times and terminates (liveness). All (start,end,step) in a window around len plus +-BIG (abstraction of +-(2^53-1)) x lengths 0..6 and all indices are replayed into the code, also under a descendant segment.",
+         "note": BASE_NOTE + " BIG abstraction justified by saturation of the RFC formula (DESIGN 3.1).", "technique": "TLC model checking of SliceLoop.tla (safety + liveness) and Evaluator.tla + replay of every slice/index behaviour"},
+ "C12": {"text": "Every TLC behaviour is executed through query, query_only_path, query_with_path and a prepared JpQuery (js_path_process), twice, with a document snapshot before and after: results must agree position by position, be repeatable, and leave the document unchanged (spec: DocUnchanged).",
+         "note": BASE_NOTE, "technique": T_EVAL + " through all entry points"},
+ "C14": {"text": "ExtFn (in, nin, none_of, any_of, subset_of) in JPSemantics; all (x, L) pairs over element values, arrays of them (nested, duplicates, empty), non-arrays and missing members, also negated and with $-rooted arguments; replayed.",
+         "note": BASE_NOTE + " 1 vs 1.0 excluded (property silent on which equality).", "technique": T_EVAL},
+ "C15": {"text": "The same TLC behaviours (C01, C04, C05, C10 universes) are executed on serde_json::Value and on a second, differently represented Queryable implementation J; paths and values must agree position by position.",
+         "note": BASE_NOTE + " J is assumed to be a faithful implementation of the trait documentation.", "technique": T_EVAL + " at two Queryable instantiations (differential)"},
 }
 NOT_APPLICABLE = {}
